@@ -13,9 +13,9 @@ import LopdfModel.Lemmas.Crypt
       processed streams (Stream::set_content), so contents and strings are restored exactly;
       walker_rt_exact under the guard "every stream's Length is its content length".
     * aes_ct_ne_pt: AES ciphertext never equals the plaintext (length).
-  The full statement is FALSE of the code in three places (counter-witnesses in this file / the
-  harness): owner password with R2–R4 (Algorithm 7 missing in decode), R5/R6 passwords longer
-  than 127 bytes (truncated when checking, not when creating), and non-PDFDoc passwords for R≤4.
+  The full statement is FALSE of the code in two places (counter-witnesses in this file / the
+  harness): owner password with R2–R4 (Algorithm 7 missing in decode) and non-PDFDoc passwords
+  for R≤4.  (R5/R6 passwords longer than 127 bytes were a third one; repaired in /repo 422f3cc.)
 -/
 set_option linter.unusedSectionVars false
 namespace Lopdf.Crypt
@@ -466,12 +466,18 @@ theorem doc_rt_owner_r234_false : wAlg.fileKey toy [7] OWNER ≠ wAlg.fileKey to
 /-- with R6 the owner password does restore the text. -/
 theorem witness_owner_r6_ok : wText (wCfg .v5 OWNER USER) OWNER = some SECRET := by decide +kernel
 
-/-- F-C05-c (R5 / R6): a password of more than 127 bytes is hashed in full by `try_from`
-(Algorithms 8 / 9 as coded) but truncated to 127 bytes by every check: the right password is rejected. -/
-theorem doc_rt_user_over127_false :
-    errOf (wRun (wCfg .v5 (List.replicate 200 111) (List.replicate 128 117)) (List.replicate 128 117)) = some .incorrectPassword ∧
-    errOf (wRun (wCfg .v5 (List.replicate 200 111) (List.replicate 128 117)) (List.replicate 200 111)) = some .incorrectPassword := by
+/-- (F-C05-c, repaired in /repo 422f3cc) R5 / R6 passwords of more than 127 bytes: `try_from` now
+truncates like every check does, so a 128-byte user and a 200-byte owner password open the document. -/
+theorem doc_rt_over127 :
+    wText (wCfg .v5 (List.replicate 200 111) (List.replicate 128 117)) (List.replicate 128 117) = some SECRET ∧
+    wText (wCfg .v5 (List.replicate 200 111) (List.replicate 128 117)) (List.replicate 200 111) = some SECRET := by
   constructor <;> decide +kernel
+
+/-- … for all primitives and all passwords: creation looks only at the first 127 bytes, exactly like the checks -/
+theorem create_r6_truncates (P : Prims) (a : Alg) (key pw salts : Bytes) :
+    a.computeU6 P key pw salts = a.computeU6 P key (pw.take R6_PW_MAX) salts ∧
+    a.computeO6 P key pw salts = a.computeO6 P key (pw.take R6_PW_MAX) salts := by
+  simp [Alg.computeU6, Alg.computeO6, trunc127, List.take_take]
 
 theorem trunc127_take (pw : Bytes) : trunc127 (pw.take R6_PW_MAX) = trunc127 pw := by
   simp [trunc127, List.take_take]
